@@ -269,7 +269,10 @@ def run(ctx):
             if slot % 5 == 3:
                 from ..gen.world import library_crash_class, library_crash_class_2
 
-                forced = library_crash_class() if (slot // 5) % 2 == 0 else library_crash_class_2()
+                from ..gen.world import library_crash_class_n
+
+                forced = [library_crash_class, library_crash_class_2, lambda: library_crash_class_n(2),
+                          lambda: library_crash_class_n(3)][(ctx.shard + ci // 2) % 4]()
             case.sync.crash_class = case.asyn.crash_class = forced
             ctx.count("crash_class:" + forced.__name__)
         try:
